@@ -1218,6 +1218,100 @@ theorem xi_exact_aux (K : Nat) (pi : Nat → Rat) (A : Nat → Nat → Rat) (b0 
 
 end exact
 
+/-! ### Deepening round D: conservation of samples by dwell extraction -/
+
+theorem insertU_lt (x : Int) : ∀ l : List Int, l.Pairwise (· < ·) → (insertU x l).Pairwise (· < ·)
+  | [], _ => by simp [insertU]
+  | y :: ys, h => by
+    have hy := List.pairwise_cons.mp h
+    simp only [insertU]
+    by_cases h1 : x < y
+    · rw [if_pos h1]
+      refine List.pairwise_cons.mpr ⟨?_, h⟩
+      intro z hz
+      simp only [List.mem_cons] at hz
+      rcases hz with rfl | hz
+      · exact h1
+      · exact Int.lt_trans h1 (hy.1 z hz)
+    · rw [if_neg h1]
+      by_cases h2 : x = y
+      · rw [if_pos h2]; exact h
+      · rw [if_neg h2]
+        refine List.pairwise_cons.mpr ⟨?_, insertU_lt x ys hy.2⟩
+        intro z hz
+        rcases (mem_insertU x z ys).mp hz with rfl | hz
+        · omega
+        · exact hy.1 z hz
+
+theorem uniq_lt : ∀ l : List Int, (uniq l).Pairwise (· < ·)
+  | [] => by simp [uniq]
+  | x :: xs => by
+    have := insertU_lt x (uniq xs) (uniq_lt xs)
+    simpa [uniq] using this
+
+theorem uniq_nodup (l : List Int) : (uniq l).Nodup :=
+  (uniq_lt l).imp (fun h => Int.ne_of_lt h)
+
+theorem sum_ite_nodup (w : Int) (k : Int) : ∀ U : List Int, U.Nodup → k ∈ U →
+    (U.map (fun s => if k = s then w else 0)).sum = w
+  | [], _, h => by simp at h
+  | u :: us, hn, h => by
+    have hn' := List.nodup_cons.mp hn
+    simp only [List.map_cons, List.sum_cons]
+    by_cases hk : k = u
+    · subst hk
+      rw [if_pos rfl]
+      have : (us.map (fun s => if k = s then w else 0)).sum = 0 := by
+        apply List.sum_eq_zero
+        intro x hx
+        obtain ⟨s, hs, rfl⟩ := List.mem_map.mp hx
+        rw [if_neg]; rintro rfl; exact hn'.1 hs
+      omega
+    · rw [if_neg hk]
+      have hmem : k ∈ us := by
+        simp only [List.mem_cons] at h; rcases h with h | h
+        · exact absurd h hk
+        · exact h
+      rw [sum_ite_nodup w k us hn'.2 hmem]; omega
+
+/-- regrouping a sum over runs by state -/
+theorem sum_by_state (U : List Int) (hU : U.Nodup) : ∀ R : List Run, (∀ r ∈ R, r.state ∈ U) →
+    (U.map (fun s => ((R.filter (fun r => r.state = s)).map Run.len).sum)).sum = (R.map Run.len).sum
+  | [], _ => by simp
+  | r :: rs, h => by
+    have ih := sum_by_state U hU rs (fun x hx => h x (by simp [hx]))
+    have e : ∀ s, (((r :: rs).filter (fun r => r.state = s)).map Run.len).sum
+        = (if r.state = s then r.len else 0) + ((rs.filter (fun r => r.state = s)).map Run.len).sum := by
+      intro s
+      by_cases hs : r.state = s
+      · rw [List.filter_cons_of_pos (by simpa using hs), if_pos hs]; simp
+      · rw [List.filter_cons_of_neg (by simpa using hs), if_neg hs]; simp
+    simp only [e]
+    rw [List.sum_map_add, ih, sum_ite_nodup r.len r.state U hU (h r (by simp))]
+    simp
+
+theorem contig_sum_len : ∀ (R : List Run) (i n : Nat), Contig i n R → (R.map Run.len).sum = (n : Int) - i
+  | [], i, n, h => by simp only [Contig] at h; subst h; simp
+  | r :: R, i, n, h => by
+    simp only [Contig] at h
+    have := contig_sum_len R r.stop n h.2.2
+    simp only [List.map_cons, List.sum_cons, this, Run.len]
+    omega
+
+theorem dwellCounts_sum (l : List Run) : (dwellCounts (l.map Run.range)).sum = (l.map Run.len).sum := by
+  simp only [dwellCounts, List.map_map]
+  rfl
+
+theorem rle_state_mem (path : List Int) : ∀ r ∈ rle path, r.state ∈ path := by
+  intro r hr
+  have hc : Contig 0 path.length (rle path) := by simpa [rle] using contig_rleFrom path 0
+  have hm := contig_mem _ _ _ hc r hr
+  have := contig_constant _ _ _ hc r hr r.start (Nat.le_refl _) hm.2.1
+  have he : expand (rle path) = path := expand_rleFrom path 0
+  rw [he, Nat.sub_zero] at this
+  exact List.mem_of_getElem? this
+
+
 /-! ### Deepening round D: positivity (the code establishes `c_t ≠ 0`) -/
 
 section pos
